@@ -94,6 +94,8 @@ inductive Ty where
   | dict (val : Ty)
   | model (fields : List (List Char × Bool × Cons × Ty)) (extra : Extra)
   | root (cons : Cons) (ty : Ty)
+  /-- a class inheriting from the classes of the named definitions, with its own fields -/
+  | derived (bases : List (List Char)) (fields : List (List Char × Bool × Cons × Ty)) (extra : Extra)
   | ref (name : List Char)
   | opt (t : Ty)
   | union (ts : List Ty)
@@ -211,6 +213,15 @@ def tr (st : Style) (o : Opts) : Ctx → Schema → Ty
   | _, .ref n => .ref n
   | _, .anyOf alts => .union (trAlts st o alts)
   | _, .oneOf alts => .union (trAlts st o alts)
+  | ctx, .allOf refs props req xreq =>
+    -- `parse_all_of` → `_parse_all_of_item` → `_parse_object_common_part`: the `$ref` parts become base
+    -- classes, the inline object gives the own fields, an allOf-level `required` marks OWN fields only
+    -- (known finding D32); `parse_item` passes `ignore_duplicate_model=True`: a single base without own
+    -- fields is used directly
+    match ctx, refs, props with
+    | .top, _, _ => .derived refs (trProps st o (req ++ xreq) props) .unset
+    | _, [r], [] => .ref r
+    | _, _, _ => .derived refs (trProps st o (req ++ xreq) props) .unset
 /-- `parse_object_fields` -/
 def trProps (st : Style) (o : Opts) (req : List (List Char)) :
     List (List Char × Schema) → List (List Char × Bool × Cons × Ty)
